@@ -19144,6 +19144,11 @@ int cg_dataclass_write(CGNS_ENUMT(DataClass_t) dataclass)
      /* verify input */
     if (cgi_check_mode(cg->filename, cg->mode, CG_MODE_WRITE)) return CG_ERROR;
 
+    if (INVALID_ENUM(dataclass,NofValidDataClass)) {
+        cgi_error("Invalid input:  DataClass=%d ?",dataclass);
+        return CG_ERROR;
+    }
+
     DataClass = cgi_dataclass_address(CG_MODE_WRITE, &ier);
     if (DataClass==0) return ier;
 
